@@ -146,7 +146,7 @@ pub fn h_fin_weak_n3() {
 }
 
 // ---- finalizers that keep releasing objects: more passes than the collector's cap of 10 per call
-pub const CHAIN: usize = 12;
+pub const CHAIN: usize = 24;
 pub struct Link {
     pub k: usize,
     pub me: std::cell::UnsafeCell<Option<Cc<Link>>>,
@@ -163,9 +163,10 @@ impl Finalize for Link {
     fn finalize(&self) {
         unsafe {
             CHAIN_FIN[self.k] += 1;
-            // release the next one: it becomes garbage only now, so every object costs the collector another pass
-            if self.k + 1 < CHAIN {
-                let n = (*core::ptr::addr_of_mut!(CHAIN_HELD))[self.k + 1].take();
+            // release the next one of the same chain (even / odd): it becomes garbage only now, so every object costs the
+            // collector another pass, and two objects are buffered again after every pass
+            if self.k + 2 < CHAIN {
+                let n = (*core::ptr::addr_of_mut!(CHAIN_HELD))[self.k + 2].take();
                 drop(n);
             }
         }
@@ -190,6 +191,8 @@ pub fn h_chain12() {
         // how the first one is released: explicit collection, or a collection triggered by Cc::new
         let first = held[0].take();
         drop(first);
+        let second = held[1].take();
+        drop(second);
         let auto = any_below(2) == 1;
         #[cfg(feature = "auto-collect")]
         if auto {
